@@ -11,6 +11,8 @@
 (* offset (Sync / AutoSync Publish / Close), with NextOffset not below it.       *)
 EXTENDS KlevFS
 
+CONSTANT RecoverFsync   \* TRUE: Recover fsyncs its copy before the rename (the code); FALSE: seeded change S131
+
 VARIABLES dur, acked
 dvars == <<vars, dur, acked>>
 
@@ -57,6 +59,33 @@ PowerLossSafe(plan, bases, w) ==
          \/ PLossOK(r, bases, w)
          \/ (KnownRebase /\ Overlap(img))
          \/ PrintT(<<"PLOSS-VIOLATION", plan, k, cuts, img, r, Scan(r), NextOf(r), w>>) /\ FALSE
+
+\* ---- a SECOND power loss, inside or right after the recovery from the first one (seeded change S131): the files of
+\* the first image are what survived, so they are durable; what the recovery writes is durable only once fsynced.
+\* The first cut may end inside a record (a torn fragment), which is what makes Recover install its copy.
+TornCutTo(d, cuts) == [n \in DOMAIN d |->
+                         IF n \in DOMAIN cuts /\ cuts[n] >= 0 /\ cuts[n] < Len(d[n].data)
+                         THEN [CutFile(d[n], cuts[n]) EXCEPT !.torn = "b"]
+                         ELSE IF n \in DOMAIN cuts THEN CutFile(d[n], cuts[n]) ELSE d[n]]
+FullDur(d) == [n \in DOMAIN d |-> Len(d[n].data)]
+IsRc(n) == \E b \in 0..MaxOff : n = RcLog(b)
+RcPlan(d) == IF RecoverFsync THEN PlanOpenRecover(d)
+             ELSE SelectSeq(PlanOpenRecover(d), LAMBDA p : ~(p.p = "fsync" /\ IsRc(p.n)))
+SecondLossSafe(img, bases, w) ==
+  LET plan == RcPlan(img) IN
+  \A k \in 0..Len(plan) :
+    LET pre == SubSeq(plan, 1, k)
+        dk == ApplyAll(img, pre)
+        uk == DurAll(FullDur(img), img, pre)
+        img2 == CutTo(dk, AtDur(dk, uk))
+        r == RecoverDir(img2)
+    IN \/ PLossOK(r, bases, w)
+       \/ (KnownRebase /\ Overlap(img2))
+       \/ PrintT(<<"PLOSS2-VIOLATION", img, plan, k, img2, Scan(r), NextOf(r), w>>) /\ FALSE
+\* at rest, for every first cut (whole items and torn)
+PowerLoss2 == \A cuts \in Cuts(dir, dur) :
+                 /\ SecondLossSafe(CutTo(dir, cuts), {live}, acked)
+                 /\ SecondLossSafe(TornCutTo(dir, cuts), {live}, acked)
 
 PlanSync(d) == LET b == HeadBase(d) IN <<Fsync(LogN(b)), Fsync(IdxN(b))>>
 
